@@ -20,6 +20,7 @@ ASSUMPTIONS = ["model arithmetic in vf/model/fields.py (schoolbook product, long
                "inverse by linear algebra); Rabin irreducibility test for the small moduli",
                "== and < against raw ints are generated only for ints in [0, p) (DESIGN.md section 0)"]
 ENGINE = "exhaustive enumeration over small fields + hypothesis on the real fields"
+TECHNIQUE = ("exhaustive enumeration over small fields + property-based testing (Hypothesis) of field axioms on the real fields, differential against independent polynomial arithmetic")
 REQUIRED_LABELS = {t: ["B:pow:exp>=745bits", "B:int_unreduced", "B:zero_coeff", "A:fq", "A:fq2", "A:fq12",
                        "B:div0"] for t in ("quick", "thorough")}
 
